@@ -15,8 +15,8 @@ Proof.
   - destruct n as [|n]; [unfold crlf; cbn [firstn flat_map length]; destruct (c =? 10); reflexivity|].
     cbn [firstn]. unfold crlf at 1 2. cbn [flat_map]. fold (crlf r). fold (crlf (firstn n r)).
     destruct (N.eqb_spec c 10) as [->|Hne].
-    + cbn [app length pos_go count_from]. change (13 =? 13) with true. change (10 =? 10) with true. cbv iota.
-      apply IH.
+    + cbn [app length pos_go count_from]. change (13 =? 13) with true. change (10 =? 13) with false.
+      change (10 =? 10) with true. cbv iota. apply IH.
     + cbn [app length pos_go count_from].
       destruct (N.eqb_spec c 13); [congruence|]. destruct (N.eqb_spec c 10); [congruence|]. apply IH.
 Qed.
